@@ -469,6 +469,17 @@ int main(int argc, char** argv) {
             printf("< ok\n");
             gfree(g);
         }
+        else if (!strcmp(op, "norm")) {
+            /* the stand-in normalisers themselves (utf8proc), for S-norm */
+            bool c = !strcmp(ARG(1), "nfc");
+            size_t n = unhex(ARG(2), hbuf, sizeof hbuf);
+            if (memchr(hbuf, 0, n)) die("NUL inside string");
+            hbuf[n] = 0;
+            utf8proc_uint8_t* res = c ? utf8proc_NFC(hbuf) : utf8proc_NFKD(hbuf);
+            printf("> norm %s ", c ? "nfc" : "nfkd"); puthex(hbuf, n);
+            printf("\n< out="); if (res) puthex(res, strlen((char*)res)); else printf("invalid"); printf("\n");
+            if (res) __real_free(res);
+        }
         else if (!strcmp(op, "note")) {
             printf("> note\n< ok\n");
         }
